@@ -119,30 +119,46 @@ one `Model.Info` mirrors:
 * `matrix_bincount2d`: the outermost loop is the `prange` over `a.shape[1]`, inside it the loops over
   `b.shape[1]` and `a.shape[0]`; there is exactly one write, in the innermost loop,
   `jc[prange index, inner index, a[t, prange index], b[t, inner index]] += 1` (iteration `a_row` owns the
-  slab `jc[a_row, …]`); the guards contain the six modelled ones; the output is `np.zeros` of `uint32`
+  slab `jc[a_row, …]`); the guards are exactly the six modelled ones, all before the loops; the output is `np.zeros` of `uint32`
   with shape `(a.shape[1], b.shape[1], n_a, n_b)` and is what is returned; nothing unrecognised;
 * `bincount2d`: one loop over `a.shape[0]`, the single write `H[a[t], b[t]] += 1`, the length guard
   and the four range guards under `a.shape[0] > 0`, `np.zeros((n_a, n_b), uint32)`;
-* both fused types list the eight integer dtypes.
+* both fused types list the eight integer dtypes;
+* pinned exactly (not only contained): the guard SET, each guard tagged `pre:` (before the first loop — a
+  guard behind the loop nest would let the out-of-bounds write happen first); the enclosing condition of
+  the write (`depth|cond|…`, must be empty); the declared C types of the parameters, loop variables and
+  index temporaries (`long` / `unsigned int`, `int` state counts — a narrower type would wrap ids); the
+  declared buffer type of the output; the decorators and module-level `# cython:` directives.
 Renaming locals, deleting unused declarations, reordering declarations or rewriting the frame loop
 as a counting `while` leave this structure unchanged; a different write cell, a dropped guard,
 `np.empty`, or a `prange` on another loop make the obligation fail (the check then escalates). -/
 theorem kernel_source_as_modelled :
     (Ens.Info.Gen.matrixBincount2d.loops =
         [("prange", "A.shape[1]"), ("range", "B.shape[1]"), ("range", "A.shape[0]")] ∧
-     Ens.Info.Gen.matrixBincount2d.writes = ["3|OUT[L0,L1,A[L2,L0],B[L2,L1]]+=1"] ∧
-     (∀ g ∈ ["A.shape[1]<2**32", "A.shape[0]==B.shape[0]", "A.max()<NA", "B.max()<NB", "A.min()>=0",
-              "B.min()>=0"], g ∈ Ens.Info.Gen.matrixBincount2d.guards) ∧
-     Ens.Info.Gen.matrixBincount2d.alloc = ["zeros", "(A.shape[1],B.shape[1],NA,NB)", "np.uint32"] ∧
+     Ens.Info.Gen.matrixBincount2d.writes = ["3||OUT[L0,L1,A[L2,L0],B[L2,L1]]+=1"] ∧
+     Ens.Info.Gen.matrixBincount2d.guards =
+        ["pre:A.max()<NA", "pre:A.min()>=0", "pre:A.shape[0]==B.shape[0]", "pre:A.shape[1]<2**32",
+         "pre:B.max()<NB", "pre:B.min()>=0"] ∧
+     Ens.Info.Gen.matrixBincount2d.alloc =
+        ["zeros", "(A.shape[1],B.shape[1],NA,NB)", "np.uint32", "buffer:np.ndarray[np.uint32_t,ndim=4]"] ∧
      Ens.Info.Gen.matrixBincount2d.ret = "OUT" ∧
-     Ens.Info.Gen.matrixBincount2d.extras = []) ∧
+     Ens.Info.Gen.matrixBincount2d.extras = [] ∧
+     Ens.Info.Gen.matrixBincount2d.types =
+        [("A", "INTEGRAL_2D_ARRAY"), ("A[L2,L0]", "long"), ("B", "INTEGRAL_2D_ARRAY"), ("B[L2,L1]", "long"),
+         ("L0", "long"), ("L1", "long"), ("L2", "long"), ("NA", "int"), ("NB", "int")] ∧
+     Ens.Info.Gen.matrixBincount2d.tags = ["@cython.boundscheck(False)", "@cython.wraparound(False)"]) ∧
     (Ens.Info.Gen.bincount2d.loops = [("range", "A.shape[0]")] ∧
-     Ens.Info.Gen.bincount2d.writes = ["1|OUT[A[L0],B[L0]]+=1"] ∧
-     (∀ g ∈ ["A.shape[0]==B.shape[0]", "A.shape[0]>0=>A.max()<NA", "A.shape[0]>0=>B.max()<NB",
-              "A.shape[0]>0=>A.min()>=0", "A.shape[0]>0=>B.min()>=0"], g ∈ Ens.Info.Gen.bincount2d.guards) ∧
-     Ens.Info.Gen.bincount2d.alloc = ["zeros", "(NA,NB)", "np.uint32"] ∧
+     Ens.Info.Gen.bincount2d.writes = ["1||OUT[A[L0],B[L0]]+=1"] ∧
+     Ens.Info.Gen.bincount2d.guards =
+        ["pre:A.shape[0]==B.shape[0]", "pre:A.shape[0]>0=>A.max()<NA", "pre:A.shape[0]>0=>A.min()>=0",
+         "pre:A.shape[0]>0=>B.max()<NB", "pre:A.shape[0]>0=>B.min()>=0"] ∧
+     Ens.Info.Gen.bincount2d.alloc = ["zeros", "(NA,NB)", "np.uint32", "buffer:np.ndarray[np.uint32_t,ndim=2]"] ∧
      Ens.Info.Gen.bincount2d.ret = "OUT" ∧
-     Ens.Info.Gen.bincount2d.extras = []) ∧
+     Ens.Info.Gen.bincount2d.extras = [] ∧
+     Ens.Info.Gen.bincount2d.types =
+        [("A", "INTEGRAL_1D_ARRAY"), ("A[L0]", "unsigned int"), ("B", "INTEGRAL_1D_ARRAY"),
+         ("B[L0]", "unsigned int"), ("L0", "unsigned int"), ("NA", "int"), ("NB", "int")] ∧
+     Ens.Info.Gen.bincount2d.tags = ["@cython.boundscheck(False)"]) ∧
     Ens.Info.Gen.fused =
       [("INTEGRAL_1D_ARRAY", ["int8", "int16", "int32", "int64", "uint8", "uint16", "uint32", "uint64"]),
        ("INTEGRAL_2D_ARRAY", ["int8", "int16", "int32", "int64", "uint8", "uint16", "uint32", "uint64"])] := by
